@@ -78,7 +78,7 @@ INV_COMMON = "bytes@ == B(self), offset <= bytes@.len(), bytes@.len() < usize::M
 
 UNIT = {
     "name": "linecol",
-    "properties": ["C11"],
+    "properties": ["C11", "C21"],
     "outer": OUTER,
     "parts": [
         PRELUDE, LC_IS,
@@ -101,7 +101,7 @@ UNIT = {
                      ("column_count", "column == 1 + leading_between(bytes@, line_start as int, j as int), column <= 1 + j"),
                  ], decreases="offset - j"),
              ],
-             props=["C11"]),
+             props=["C11", "C21"]),
         dict(file=PARSER, kind="fn", name="get_line_column_range", container="SourceFile", container_name="SourceFile", wrap="impl SourceFile",
              rewrites=[("range: Range<usize>", "range: core::ops::Range<usize>", 1), ("Option<Range<LineColumn>>", "Option<core::ops::Range<LineColumn>>", 1)],
              clauses=[
@@ -109,18 +109,18 @@ UNIT = {
                  ("ensures", "none_iff_either_out_of_bounds", "r is None <==> (range.start > B(self).len() || range.end > B(self).len())"),
                  ("ensures", "both_ends_by_the_same_rule", "r is Some ==> lc_is(r->0.start, B(self), range.start as int) && lc_is(r->0.end, B(self), range.end as int)"),
              ],
-             props=["C11"]),
+             props=["C11", "C21"]),
 
-        dict(file=PARSER, kind="fn", name="offset", container="SourceSpan", container_name="SourceSpan", wrap="impl SourceSpan", props=["C11"],
+        dict(file=PARSER, kind="fn", name="offset", container="SourceSpan", container_name="SourceSpan", wrap="impl SourceSpan", props=["C11", "C21"],
              clauses=[("ensures", "start_of_the_range", "r == self.text_range.lo")]),
-        dict(file=PARSER, kind="fn", name="end_offset", container="SourceSpan", container_name="SourceSpan", wrap="impl SourceSpan", props=["C11"],
+        dict(file=PARSER, kind="fn", name="end_offset", container="SourceSpan", container_name="SourceSpan", wrap="impl SourceSpan", props=["C11", "C21"],
              clauses=[("ensures", "end_of_the_range", "r == self.text_range.hi")]),
-        dict(file=PARSER, kind="fn", name="line_column", container="SourceSpan", container_name="SourceSpan", wrap="impl SourceSpan", props=["C11"],
+        dict(file=PARSER, kind="fn", name="line_column", container="SourceSpan", container_name="SourceSpan", wrap="impl SourceSpan", props=["C11", "C21"],
              clauses=[("requires", "texts_shorter_than_usize_max", "forall|k: u64| #[trigger] sources@.dom().contains(k) ==> B(&sources@[k]).len() < usize::MAX"),
                       ("ensures", "position_of_the_start_offset_in_the_spans_own_file",
                        "r is Some <==> (sources@.dom().contains(self.file_id.id) && self.text_range.lo <= B(&sources@[self.file_id.id]).len())"),
                       ("ensures", "by_the_LineTerminator_rule", "r is Some ==> lc_is(r->0, B(&sources@[self.file_id.id]), self.text_range.lo as int)")]),
-        dict(file=PARSER, kind="fn", name="line_column_range", container="SourceSpan", container_name="SourceSpan", wrap="impl SourceSpan", props=["C11"],
+        dict(file=PARSER, kind="fn", name="line_column_range", container="SourceSpan", container_name="SourceSpan", wrap="impl SourceSpan", props=["C11", "C21"],
              rewrites=[("Option<Range<LineColumn>>", "Option<core::ops::Range<LineColumn>>", 1)],
              clauses=[("requires", "texts_shorter_than_usize_max", "forall|k: u64| #[trigger] sources@.dom().contains(k) ==> B(&sources@[k]).len() < usize::MAX"),
                       ("ensures", "positions_of_both_ends_in_the_spans_own_file",
